@@ -64,6 +64,8 @@ func readEvents(path string) []map[string]interface{} {
 	return doc.Events
 }
 
+var lastRenderBig string
+
 func replay(in, out string) {
 	evs := readEvents(in)
 	t := NewTracer(out, 1)
@@ -126,6 +128,14 @@ func replay(in, out string) {
 			{ // re-emits both phases (fresh and reloaded)
 				bc, nq := bigCase(pr["kind"].(string), int(pr["nreq"].(float64)), ks, pr["prop"].(string))
 				runBigCase(t, newMeta(""), rand.New(rand.NewSource(ks+1)), bc, nq, "replay", Ev{"kind": pr["kind"], "nreq": pr["nreq"], "kseed": pr["kseed"], "prop": pr["prop"]})
+			}
+		case "renderbig":
+			pr := e["params"].(map[string]interface{})
+			if key := fmt.Sprint(pr["kind"], pr["nreq"], pr["kseed"]); key != lastRenderBig { // re-emits both phases (fresh and reloaded)
+				lastRenderBig = key
+				var ks int64
+				fmt.Sscan(pr["kseed"].(string), &ks)
+				runRenderBig(t, newMeta(""), pr["kind"].(string), int(pr["nreq"].(float64)), ks)
 			}
 		case "calibration":
 			dir := "/repo/trie/testdata"
